@@ -77,6 +77,95 @@ theorem insert_anywhere_polling (now : Nat) (s : PScanner) (b : Bytes) (hv : b.V
   simp only [pRun, pStep, transparent_polling now s b hv hn, bind, Except.bind]
   cases pRun now s ops <;> rfl
 
+/-- runs split at any point -/
+theorem ccRun_append (s : CCScanner) (a b : List Op) :
+    ccRun s (a ++ b) = (do let (s1, o1) ← ccRun s a; let (s2, o2) ← ccRun s1 b; .ok (s2, o1 ++ o2)) := by
+  induction a generalizing s with
+  | nil =>
+    simp only [List.nil_append, ccRun, bind, Except.bind]
+    cases ccRun s b <;> rfl
+  | cons x xs ih =>
+    simp only [List.cons_append, ccRun, bind, Except.bind]
+    cases ccStep s x with
+    | error e => rfl
+    | ok r =>
+      simp only [ih r.1, bind, Except.bind]
+      cases ccRun r.1 xs with
+      | error e => rfl
+      | ok r2 =>
+        simp only
+        cases ccRun r2.1 b <;> simp
+
+theorem pnRun_append (s : PNScanner) (a b : List Op) :
+    pnRun s (a ++ b) = (do let (s1, o1) ← pnRun s a; let (s2, o2) ← pnRun s1 b; .ok (s2, o1 ++ o2)) := by
+  induction a generalizing s with
+  | nil =>
+    simp only [List.nil_append, pnRun, bind, Except.bind]
+    cases pnRun s b <;> rfl
+  | cons x xs ih =>
+    simp only [List.cons_append, pnRun, bind, Except.bind]
+    cases pnStep s x with
+    | error e => rfl
+    | ok r =>
+      simp only [ih r.1, bind, Except.bind]
+      cases pnRun r.1 xs with
+      | error e => rfl
+      | ok r2 =>
+        simp only
+        cases pnRun r2.1 b <;> simp
+
+/-- inserting a non-contributing message ANYWHERE in a stream (after any prefix `a`, before any rest `b`) changes
+    nothing but adds one empty result at that position: same final state, same reports for everything else -/
+theorem insert_in_the_middle_cc (s : CCScanner) (a b : List Op) (m : Bytes) (hv : m.Valid) (hn : ¬ contributes14 m) :
+    ccRun s (a ++ .feed m :: b) =
+      (do let (s1, o1) ← ccRun s a; let (s2, o2) ← ccRun s1 b; .ok (s2, o1 ++ none :: o2)) := by
+  rw [ccRun_append]
+  cases ccRun s a with
+  | error e => rfl
+  | ok r =>
+    simp only [bind, Except.bind, insert_anywhere_cc r.1 m hv hn b]
+    cases ccRun r.1 b <;> rfl
+
+theorem insert_in_the_middle_pn (s : PNScanner) (a b : List Op) (m : Bytes) (hv : m.Valid) (hn : ¬ contributesPN m) :
+    pnRun s (a ++ .feed m :: b) =
+      (do let (s1, o1) ← pnRun s a; let (s2, o2) ← pnRun s1 b; .ok (s2, o1 ++ none :: o2)) := by
+  rw [pnRun_append]
+  cases pnRun s a with
+  | error e => rfl
+  | ok r =>
+    simp only [bind, Except.bind, insert_anywhere_pn r.1 m hv hn b]
+    cases pnRun r.1 b <;> rfl
+
+theorem pRun_append (now : Nat) (s : PScanner) (a b : List TOp) :
+    pRun now s (a ++ b) =
+      (do let (ns1, o1) ← pRun now s a; let (ns2, o2) ← pRun ns1.1 ns1.2 b; .ok (ns2, o1 ++ o2)) := by
+  induction a generalizing now s with
+  | nil =>
+    simp only [List.nil_append, pRun, bind, Except.bind]
+    cases pRun now s b <;> rfl
+  | cons x xs ih =>
+    simp only [List.cons_append, pRun, bind, Except.bind]
+    cases pStep now s x with
+    | error e => rfl
+    | ok r =>
+      simp only [ih r.1.1 r.1.2, bind, Except.bind]
+      cases pRun r.1.1 r.1.2 xs with
+      | error e => rfl
+      | ok r2 =>
+        simp only
+        cases pRun r2.1.1 r2.1.2 b <;> simp
+
+theorem insert_in_the_middle_polling (now : Nat) (s : PScanner) (a b : List TOp) (m : Bytes) (hv : m.Valid)
+    (hn : ¬ contributesPN m) :
+    pRun now s (a ++ .feed m :: b) =
+      (do let (ns1, o1) ← pRun now s a; let (ns2, o2) ← pRun ns1.1 ns1.2 b; .ok (ns2, o1 ++ (none, none) :: o2)) := by
+  rw [pRun_append]
+  cases pRun now s a with
+  | error e => rfl
+  | ok r =>
+    simp only [bind, Except.bind, insert_anywhere_polling r.1.1 r.1.2 m hv hn b]
+    cases pRun r.1.1 r.1.2 b <;> rfl
+
 /-- ControllerNumber's predicates agree: can_be_part_of_14_bit holds exactly for 0–63, the corresponding LSB controller
     number is n+32 exactly for 0–31 (no overflow for any u8-range controller number below 128), and
     is_parameter_number_message_controller_number holds exactly for {6, 38, 96, 97, 98, 99, 100, 101} -/
